@@ -2,8 +2,8 @@
  * Driver for spec/NumText.tla (X07, extension of C07): scalar -> text and the
  * composite conversion paths.
  *
- *   print    api=num|value|conv src=<t> (bytes=hex:..|num=<number>) flags=<n> width=<n> dec=<n> left=<n> [cb=all|part]
- *   printvec src=<t> elems=hex:<element bytes> left=<n> [cb=all|part]
+ *   print    api=num|value|conv src=<t> (bytes=hex:..|num=<number>) flags=<n> width=<n> dec=<n> left=<n> [cb=all|part|cap cap=<n>]
+ *   printvec src=<t> elems=hex:<element bytes> left=<n> [cb=all|part|cap cap=<n>]
  *   printobj types=<letters> elems=hex:<16 bytes per property> left=<n> [cb=..]
  *   fmt      api=get|cstr chars=<bytes>
  *   fmtlist  api=parse|set chars=<bytes>
@@ -245,16 +245,26 @@ static void bad_input(struct cmd *c)
 }
 
 /* ---------- text sink handed to the print functions ---------- */
+/* policies: "all"  takes a piece completely or refuses it (error),
+ *           "part" takes what still fits into the total capacity (short count),
+ *           "cap"  takes at most <percall> bytes of every piece (short count), total capacity as well */
 struct sink {
 	uint8_t *buf;
-	size_t cap, used;
+	size_t cap, used, percall;
 	int part, calls;
+	uint8_t *off;        /* every byte offered, whatever was taken */
+	size_t offn;
 };
 static ssize_t sink_save(void *ctx, const char *s, size_t n)
 {
 	struct sink *k = (struct sink *) ctx;
 	size_t room = k->cap - k->used;
 	k->calls++;
+	if (k->off && k->offn + n <= BUFSZ) {
+		if (n) memcpy(k->off + k->offn, s, n);
+		k->offn += n;
+	}
+	if (k->percall && n > k->percall) n = k->percall;
 	if (n > room) {
 		if (!k->part) return MPT_ERROR(MissingBuffer);
 		n = room;
@@ -262,6 +272,17 @@ static ssize_t sink_save(void *ctx, const char *s, size_t n)
 	if (n) memcpy(k->buf + k->used, s, n);
 	k->used += n;
 	return (ssize_t) n;
+}
+static void sink_init(struct sink *k, uint8_t *buf, size_t left, struct cmd *c)
+{
+	const char *cb = drv_raw(c, "cb");
+	k->buf = buf; k->cap = left; k->used = 0; k->calls = 0; k->percall = 0;
+	k->off = 0; k->offn = 0;
+	k->part = cb && (!strcmp(cb, "part") || !strcmp(cb, "cap"));
+	if (cb && !strcmp(cb, "cap")) {
+		k->percall = (size_t) drv_uint(c, "cap", 1);
+		if (!k->percall) k->percall = 1;
+	}
 }
 
 /* ---------- convertables ---------- */
@@ -364,19 +385,18 @@ static int reparse(int t, int radix, const char *text, void *dest)
 }
 
 /* ---------- print ---------- */
-static uint8_t pbuf1[BUFSZ + GUARD], pbuf2[BUFSZ + GUARD];
+static uint8_t pbuf1[BUFSZ + GUARD], pbuf2[BUFSZ + GUARD], obuf[BUFSZ];
 
 static void do_print(struct cmd *c)
 {
 	const char *api = drv_raw(c, "api");
 	const char *s = drv_raw(c, "src");
-	const char *cb = drv_raw(c, "cb");
 	int t = s ? s[0] : 0;
 	uint8_t src[16];
 	MPT_STRUCT(value_format) fmt;
 	size_t left = (size_t) drv_uint(c, "left", 0);
-	int r1 = -999, r2 = -999, ov = 0, same = 1, radix, part;
-	size_t i, len1 = 0, len2 = 0;
+	int r1 = -999, r2 = -999, ov = 0, same = 1, radix;
+	size_t i, len1 = 0, len2 = 0, offn = 0;
 	struct num v, pw;
 	int pr = -999, pdone = 0;
 	int calls = 0;
@@ -389,7 +409,6 @@ static void do_print(struct cmd *c)
 	fmt.width = (uint8_t) drv_uint(c, "width", 0);
 	fmt.dec = (uint8_t) drv_uint(c, "dec", 0);
 	radix = (fmt.flags & 1) ? 16 : ((fmt.flags & 2) ? 8 : 10);
-	part = cb && !strcmp(cb, "part");
 	num_decode(t, src, &v);
 	memset(pbuf1, 0xA5, sizeof(pbuf1));
 	memset(pbuf2, 0x5A, sizeof(pbuf2));
@@ -405,8 +424,9 @@ static void do_print(struct cmd *c)
 		struct sink k1, k2;
 		struct sconv sc;
 		MPT_STRUCT(value) val = MPT_VALUE_INIT(t, src);
-		k1.buf = pbuf1; k1.cap = left; k1.used = 0; k1.part = part; k1.calls = 0;
-		k2.buf = pbuf2; k2.cap = left; k2.used = 0; k2.part = part; k2.calls = 0;
+		sink_init(&k1, pbuf1, left, c);
+		k1.off = obuf;
+		sink_init(&k2, pbuf2, left, c);
 		sc._c._vptr = &sconv_ctl;
 		sc.type = t;
 		memcpy(sc.data, src, 16);
@@ -420,6 +440,7 @@ static void do_print(struct cmd *c)
 		len1 = k1.used;
 		len2 = k2.used;
 		calls = k1.calls;
+		offn = k1.offn;
 	}
 	else {
 		bad_input(c);
@@ -446,6 +467,7 @@ static void do_print(struct cmd *c)
 	drv_begin(c);
 	j_str("r", !same ? "unstable" : (r1 < 0 ? "refused" : "ok"));
 	j_bytes("text", pbuf1, r1 < 0 ? 0 : len1);
+	if (strcmp(api, "num")) j_bytes("off", obuf, offn);
 	j_int("ov", ov);
 	j_num("v", &v);
 	j_str("pr", !pdone ? "none" : (pr > 0 ? "ok" : (pr == 0 ? "empty" : "refused")));
@@ -462,7 +484,6 @@ static void do_print(struct cmd *c)
 static void do_printvec(struct cmd *c)
 {
 	const char *s = drv_raw(c, "src");
-	const char *cb = drv_raw(c, "cb");
 	int t = s ? s[0] : 0;
 	size_t left = (size_t) drv_uint(c, "left", 0);
 	size_t n = 0, i, cnt;
@@ -481,8 +502,8 @@ static void do_printvec(struct cmd *c)
 	vec.iov_base = data;
 	vec.iov_len = cnt * (size_t) slot;
 	memset(pbuf1, 0xA5, sizeof(pbuf1));
-	k1.buf = pbuf1; k1.cap = left; k1.used = 0; k1.calls = 0;
-	k1.part = cb && !strcmp(cb, "part");
+	sink_init(&k1, pbuf1, left, c);
+	k1.off = obuf;
 	{
 		MPT_STRUCT(value) val = MPT_VALUE_INIT(MPT_type_toVector(t), &vec);
 		r1 = mpt_print_value(&val, sink_save, &k1);
@@ -490,6 +511,7 @@ static void do_printvec(struct cmd *c)
 	drv_begin(c);
 	j_str("r", r1 < 0 ? "refused" : "ok");
 	j_bytes("text", pbuf1, r1 < 0 ? 0 : k1.used);
+	j_bytes("off", obuf, k1.offn);
 	j_int("ov", 0);
 	j_arr_open("vs");
 	for (i = 0; i < cnt; i++) {
@@ -509,7 +531,6 @@ static void do_printvec(struct cmd *c)
 static void do_printobj(struct cmd *c)
 {
 	const char *types = drv_raw(c, "types");
-	const char *cb = drv_raw(c, "cb");
 	size_t left = (size_t) drv_uint(c, "left", 0);
 	size_t n = 0, i, cnt;
 	uint8_t *el;
@@ -533,12 +554,13 @@ static void do_printobj(struct cmd *c)
 		ob.names[i][2] = 0;
 	}
 	memset(pbuf1, 0xA5, sizeof(pbuf1));
-	k1.buf = pbuf1; k1.cap = left; k1.used = 0; k1.calls = 0;
-	k1.part = cb && !strcmp(cb, "part");
+	sink_init(&k1, pbuf1, left, c);
+	k1.off = obuf;
 	r1 = mpt_print_object(&ob._o, sink_save, &k1);
 	drv_begin(c);
 	j_str("r", r1 < 0 ? "refused" : "ok");
 	j_bytes("text", pbuf1, r1 < 0 ? 0 : k1.used);
+	j_bytes("off", obuf, k1.offn);
 	j_int("ov", 0);
 	j_arr_open("vs");
 	for (i = 0; i < cnt; i++) {
